@@ -87,6 +87,9 @@ def model_sig(m):
     resp = None
     if m.response is not None:
         resp = m.response.term.name
+        ref = getattr(m.response.term.components[0], "reference", None)
+        if ref is not None:  # y[level] ~ ...: the level is part of what the formula says
+            resp = f"{resp}[{ref}]"
     return [resp, [str(t.name) for t in m.common_terms], [str(t.name) for t in m.group_terms]]
 
 
@@ -408,7 +411,7 @@ def judge(text, m, rng, shadows=True, origin="enum"):
             out = real_model(variant, False)
         if out[0] == "ok" and out[1] == real[1]:
             m.violation("no-token-ignored",
-                        f"{text!r} and {variant!r} (one variable renamed to {fresh!r}) both give {real[1]}",
+                        f"{text!r} and {variant!r} (one variable or level renamed to {fresh!r}) both give {real[1]}",
                         case={**case, "variant": variant, "add_intercept": False}, key="token-ignored")
 
 
@@ -435,6 +438,8 @@ def rename_one(ast, rng, fresh):
             scan(nd[2], in_call, path + (2,))
         elif k == "var":
             spots.append(path)
+            if nd[2] is not None:
+                spots.append(path + ("level",))
         elif k == "lit" and not in_call and nd[2] is None and nd[1] == 0 and not isinstance(nd[1], bool):
             raise LookupError  # `1 + 0` is an empty model, and an interaction with nothing is nothing
 
@@ -447,6 +452,8 @@ def rename_one(ast, rng, fresh):
     target = rng.choice(spots)
 
     def rebuild(nd, path):
+        if path == ("level",):
+            return ("var", nd[1], fresh)
         if not path:
             return ("var", fresh, nd[2])
         j = path[0]
